@@ -1,7 +1,8 @@
 (* C05 - Committing a sub-editor rewrites exactly the selected region. *)
 From Coq Require Import List Bool ZArith Lia.
 Import ListNotations.
-From Rosed Require Import Base.Res Base.ListX Gem.Segment Model.Options Model.Editor Proofs.C05P Inst.GoRt gen.GemCommit Inst.GoCommit.
+From Rosed Require Import Base.Res Base.ListX Base.Utf8 Gem.Segment Model.Options Model.Editor Proofs.C05P Inst.GoRt gen.GemCommit Inst.GoCommit
+     Proofs.C18X Proofs.C18Y Proofs.C18Z.
 Open Scope Z_scope.
 
 (* Whatever text t' a sub-editor selected at bytes [s, en) of p holds when it is
@@ -44,3 +45,34 @@ Print Assumptions C05_string.
 Theorem C05_commit_is_the_source : forall e, go_Commit e = commit e /\ go_String e = ed_string e.
 Proof. intro e. exact (conj (go_commit_eq e) (go_string_eq e)). Qed.
 Print Assumptions C05_commit_is_the_source.
+
+(* "... so the result is valid UTF-8 whenever the inputs are": a character or line selection of
+   valid text, given any valid text, commits to valid text *)
+Theorem C05_commit_valid_utf8 : forall (C : Classifier) e s0 e0 sel t' c,
+  valid_utf8 (e_text e) = true ->
+  (chars e s0 e0 = Ok sel \/ (valid_utf8 (o_linesep (with_defaults (e_opts e))) = true /\ ed_lines_sel e s0 e0 = Ok sel)) ->
+  valid_utf8 t' = true -> commit (with_text sel t') = Ok c -> valid_utf8 (e_text c) = true.
+Proof.
+  intros C e s0 e0 sel t' c He Hsel Ht Hc.
+  assert (Hr : ref_ok sel) by (destruct Hsel as [E|[Hs E]]; [exact (chars_ref_ok e s0 e0 sel He E)|exact (lines_sel_ref_ok e s0 e0 sel He Hs E)]).
+  exact (commit_valid (with_text sel t') c Ht Hr Hc).
+Qed.
+Print Assumptions C05_commit_valid_utf8.
+
+(* at any nesting depth: all_ok (valid text, every link of the parent chain cut at code-point
+   boundaries) holds of Edit(valid text), is kept by Chars, Lines, Commit and by every
+   replacement of the text by valid text, and gives valid UTF-8 from CommitAll and String *)
+Theorem C05_nested_valid_utf8 : forall (C : Classifier) e s0 e0 r t,
+  (valid_utf8 t = true -> all_ok (edit t)) /\
+  (all_ok e -> valid_utf8 t = true -> all_ok (with_text e t)) /\
+  (all_ok e -> chars e s0 e0 = Ok r -> all_ok r) /\
+  (all_ok e -> valid_utf8 (o_linesep (with_defaults (e_opts e))) = true -> ed_lines_sel e s0 e0 = Ok r -> all_ok r) /\
+  (all_ok e -> commit e = Ok r -> all_ok r) /\
+  (all_ok e -> commit_all e = Ok r -> valid_utf8 (e_text r) = true) /\
+  (all_ok e -> ed_string e = Ok t -> valid_utf8 t = true).
+Proof.
+  intros C e s0 e0 r t.
+  exact (conj (all_ok_edit t) (conj (all_ok_with_text e t) (conj (all_ok_chars e s0 e0 r)
+        (conj (all_ok_lines e s0 e0 r) (conj (all_ok_commit e r) (conj (commit_all_valid e r) (string_valid e t))))))).
+Qed.
+Print Assumptions C05_nested_valid_utf8.
